@@ -19,115 +19,115 @@ E1 = "bounded exhaustive enumeration of an input/configuration lattice through a
 E2 = "exhaustive exploration of all operation histories up to a depth bound on a live Weaver object (stateless re-execution + explicit-state merging), invariants evaluated in every state against a functional reference model"
 E3 = "exhaustive exploration of fault scripts, crash points and thread schedules of the real loader under an audit-hook baton scheduler over a scripted network, plus a TLC-checked model whose every edge is replayed against the implementation"
 
-add("C10", "4/C10", E1,
-    "All strictly increasing arrays (<=5/6 elements over an integer lattice) x all sorted query multisets (<=3/4 over the "
-    "half-integer lattice) x fill flag x input type x 3 searches + dispatcher, plus ulp-neighbourhood float slices, "
-    "each compared with the bisect definition: a coverage statement over the whole bounded space, not a sample.",
-    "bisect reference model; CPython/NumPy float comparison semantics; inputs beyond the lattice bounds are not covered")
-
-add("C01", "4/C01", E1,
-    "Every grid of 5..6/8 strictly increasing samples on an integer lattice (and affine float images) x every increasing "
-    "reference tuple on the half-integer lattice x 5 ways of designating fixed points x 2x2 rules x 4 exponents x "
-    "spanning values, filtered by the stated precondition; every interval integral of the result compared with the "
-    "exact reference integral. Exhaustive within the bounds, so a wrong weight, rule, slice or search shows on "
-    "thousands of lattice points.",
-    "exact Fraction reference for the reference integrals; 1e-9 relative tolerance; selection and value stages enumerated "
-    "against reduced alphabets of each other (factorisation argued in DESIGN.md)")
-add("C02", "4/C02", E1,
-    "All small series (grids G(8,m), m<=5, lattice values) and structured series to 60 points x 6 strategies x parameter "
-    "alphabets x n x both target rules x append variants through the real Weaver pipeline, plus all 19 bundled datasets; "
-    "each interval mean compared with the original average and process.average with the original abscissae.",
-    "1e-9 relative tolerance; default fixed points; FITPACK/NumPy trusted")
-add("C03", "4/C03", E1,
-    "The C01 space judged by displacement clauses (bytes outside the span, fixed points, one direction, cross-multiplied "
-    "proportionality to the documented weights, idempotence) plus a kernel basis sweep over every grid of 3..6/8 points on "
-    "{0..10} x 3 rational images x 2 rules x integer exponents 1..3 against exact Fraction images.",
-    "affinity in (y, P) is checked on a basis + 5 lattice points per grid, not proved; non-integer exponents only in the C01-space part")
-add("C04", "4/C04", E1,
-    "7 strategy classes x every grid G(8,m), m<=5/6 (int/float, list/array) x n x window/beta/exponent alphabets x 3 value "
-    "patterns: array types, lengths, bit-exact n-th abscissae, equal spacing to 4 ulp; n<2 rejection for every class.",
+add("C01", "4/C01 + 0", E1,
+    "Grids G(7,5..6)/G(9,5..8) (integer, shifted so that 0 and negatives occur, dyadic / decimal / 2^-30 images) x every increasing "
+    "reference tuple of the half-integer lattice x 5 ways of designating fixed points (with the 'ignored' search strategy rotating) x "
+    "2x2 rules x 4 exponents x spanning values in float / int64 / list-of-int form, at three magnitudes and with references spanning "
+    "18 orders of magnitude; every interval integral judged at its own scale against an exact reference; plus Weaver.integral_match "
+    "in every state of all programs over 12 operations to depth 3/4.",
+    "selection and value stages enumerated against reduced alphabets of each other (factorisation argued in DESIGN.md); tolerance 1e-9 relative")
+add("C02", "4/C02 + 0", E1,
+    "All small series (G(8,m), m<=5, lattice values; abscissae also shifted / scaled by 2^-30 / jittered by 1e-6; values also on a 2.5e6 "
+    "baseline and at 1e-9) and structured series to 25/60 points x 6 strategies x parameters x n x both target rules x append variants "
+    "through the real Weaver pipeline (optionally after an earlier recreation whose outputs the caller edited), all 19 bundled "
+    "datasets, and Weaver.integral_match compared with the function in every state of all programs over 13 operations to depth 3/4.",
+    "1e-9 relative to max|y|; default fixed points; FITPACK/NumPy trusted")
+add("C03", "4/C03 + 0", E1,
+    "The C01 space and the Weaver-state harness judged by displacement clauses (bytes outside the span, fixed points, one direction, "
+    "cross-multiplied proportionality to the documented weights, idempotence) plus a kernel basis sweep over every grid of 3..6/8 points "
+    "on {0..10} x 3 rational images x 2 rules x exponents 1..3 against exact Fraction images.",
+    "affinity in (y, P) checked on a basis + 5 lattice points per grid, not proved")
+add("C04", "4/C04 + 0", E1,
+    "7 strategy classes x every grid G(8,m), m<=5/6 (int64 / float64 / float32 / list; decimal, 2^-30 and jittered images) x n x "
+    "window/beta/exponent alphabets x value patterns, every n in 2..64 on four grids: array types, lengths, bit-exact n-th abscissae, "
+    "equal spacing to 4 ulp; the caller edits the returned arrays and asks the same object again; n<2 rejected by every class.",
     "np.linspace rounding bounded by 4 ulp; suppliers tried are np.interp returning float / 0-d array")
-add("C05", "4/C05", E1,
-    "Every y in V^5 (all tie patterns) x x-patterns x n x alpha/a x beta x exponent x smoothing for the four window "
-    "strategies, judged by output-only invariants (hull, plateau count/contiguity, monotone), plus piecewise-constant, "
-    "spline and constant-series clauses. Known finding K1 (exponent 0.1, monotone) is listed, everything else must hold.",
-    "1e-9 tolerance; dyadic parameter alphabets; quick thins the largest parameter products deterministically (thorough enumerates them fully)")
-add("C06", "4/C06", E1,
-    "The C05 space (adaptive smoothing 1) compared sample by sample with a docstring-derived reference model of the four "
-    "strategies (exact windows, both truncations accepted at exact-integer boundaries), an exact-arithmetic slice, and the "
-    "five shape functions on a lattice of abscissae x end values x 7 exponents.",
+add("C05", "4/C05 + 0", E1,
+    "Every y in V^5 (all tie patterns; also on level 2^40) x x-patterns (also 2^-30-scaled and jittered, after a colliding uniform grid) x "
+    "n x alpha/a x beta x exponent x smoothing for the four window strategies, judged by output-only invariants, second rfa() call "
+    "included; piecewise-constant / spline / constant-series clauses incl. caller edits between calls. K1 (exponent 0.1, monotone) is "
+    "the only listed finding.",
+    "tolerance = 1e-9 of the spread + 256 ulp of the level; quick thins the largest parameter products deterministically")
+add("C06", "4/C06 + 0", E1,
+    "The C05 space (adaptive smoothing 1) compared sample by sample with a docstring-derived reference model (exact windows, both "
+    "truncations accepted at exact-integer boundaries), an exact-arithmetic slice, and the five shape functions on a lattice of "
+    "abscissae x end values x 7 exponents.",
     "samples depending on the virtual interval behind the last point are excluded; exp_lin/lin_exp_xy closed forms as pinned by the shipped doctests")
-add("C07", "4/C07", E1,
-    "For every y in {0,1,3}^6 / V^6 x x-patterns x n x parameters x 6 strategies: 4 value maps, 4 time maps, every "
-    "single-value replacement (locality window 1 / 2 intervals) and the weight matrix W reproduced on the whole lattice "
-    "(rows sum to 1, non-negative except spline).",
-    "adaptive strategies only under exactly representable value maps; 1e-9 tolerance")
-add("C17", "4/C17", E1,
-    "Literal list-code contracts of the oversample/extend/append helpers, the interval view (every [i,j] read and write for "
-    "every length 1..24 x interval size 1..8, layouts, closed intervals, oversampling) and block averaging incl. the round "
-    "trip, on all arrays of length 1..5/6 over small lattices and structured arrays to 50, n=1..16.",
-    "np.linspace/np.pad trusted; extend_linspace defaults only defined for len(a) > n")
-
+add("C07", "4/C07 + 0", E1,
+    "For every y in {0,1,3}^6 / V^6 x x-patterns x n x parameters x 6 strategies: value maps, 7 time maps incl. shifts 2^20..2^32 "
+    "(conditioning-aware tolerance), also applied in place to the caller's own array between two recreations and after a colliding "
+    "grid, every single-value replacement (locality 1 / 2 intervals), weight matrix on the whole lattice.",
+    "adaptive strategies only under exactly representable value maps")
+add("C08", "4/C08 + 6", E2,
+    "All sequences of 20 concrete domain operations (10 kinds) to depth 3/4 from 5 initial series (+ a series with a missing sample "
+    "cut off first) on the live Weaver; in every state working == reference (bytes) == exact rational model; every reshaping "
+    "operation leaves the reference bytes-unchanged; recreate+match tails against the transformed averages; shift/scale commute with "
+    "the pipeline; thorough adds an explicit-state BFS with merging to depth 8 or 400k states.",
+    "truncation bounds strictly between samples; quick rotates the 24 tail combinations over the states")
+add("C09", "4/C09 + 6", E2,
+    "All programs over the whole public API (60 concrete operations, 7 constructors) respecting documented preconditions: full "
+    "alphabet to depth 2/3, core alphabet (25 ops, every kind) to depth 3/4, README pipeline with <=1/2 deviations, and programs on "
+    "ulp-spaced abscissae; well-formedness, caller data, original in every state; after restore_original observational equality "
+    "with a fresh object plus 1-step (whole alphabet) and 2-step (9 ops) bisimulation.",
+    "deterministic noise seam; integral_match is called in every state with >= 2 samples on both series")
+add("C10", "4/C10", E1,
+    "All strictly increasing arrays (<=5/6 elements over {0..7} and {-3..4}) x all sorted query multisets (<=3/4 over the half-integer "
+    "lattice) x fill flag x input type x 3 searches + dispatcher; float slices with queries at / 1 ulp around / between / beyond the "
+    "elements and arrays with adjacent floats; the same ndarray edited in place between calls and the returned index array scribbled on.",
+    "'closest': exact nearest demanded, the neighbour chosen by correctly rounded distances also accepted")
 add("C11", "4/C11", E1,
-    "Every series on G(7,k) x every pair of absolute bounds on the half-integer lattice (below, inside, on, above the "
-    "range) x ratio bounds in all flag combinations x three entry points (function, Weaver unreshaped, Weaver recreated), "
-    "every (start, stop) of slice_by_value incl. omitted bounds and the first sample, every index (start, stop, step).",
+    "Every series on G(7,k) (5 images incl. 2^50+x and x/2^20) x every pair of absolute bounds of the half-integer lattice x ratio bounds "
+    "in all flag combinations x three entry points; every (start, stop) of slice_by_value; every index (start, stop, step); "
+    "slice_by_value in every state of Weaver histories (depth 3/4, incl. restore_original); truncate on an array edited in place.",
     "ratio bounds on dyadic grids only; rejections belong to C20")
 add("C12", "4/C12", E1,
-    "Every series on G(7,k) (3 images, int/float, list/array) x r=1..12 x all factor pairs ab<=12 through process.repeat "
-    "and Weaver.repeat: tiling, spacing inside each copy, junction step, first copy, monotonicity, composition, reference.",
-    "exact on dyadic grids, 1e-9 on the non-dyadic image")
+    "Every series on G(7,k) (6 images incl. 1e-9 x and level 1e6, int/float, list/array) x r=1..12 x all factor pairs ab<=12 through "
+    "process.repeat and Weaver.repeat; narrow integer abscissae near their dtype's maximum; Weaver.repeat of the current series in "
+    "every state of histories to depth 2/3.",
+    "exact on dyadic grids; otherwise 8r ulp of the level + 1e-9 of a step")
 add("C13", "4/C13", E1,
-    "Every series on G(8,k), k=4..5/6 x value lattice + affine data x 4 methods x every sorted new grid of <=2/4 half-lattice "
-    "points from below to beyond the range; Weaver.interpolate(n), n=2..12, and explicit grids sharing both/one/no end point.",
+    "Every series on G(8,k), k=4..5/6 (also moved to negative abscissae; float / int array / int list) x value lattice + affine data "
+    "x 4 methods x every sorted new grid of <=2/3 half-lattice points (float / int array / int list) from below to beyond the range, "
+    "after an earlier call with method-specific options; Weaver.interpolate(n), n=2..12, explicit grids sharing both/one/no end point.",
     "'linear' claimed inside the range only; scipy splines trusted to rounding")
 add("C14", "4/C14", E1,
-    "Every series on G(7,k) with abscissa offsets/scales x V+-^k x 6 trend callables x normalised or not x trend pairs "
-    "(additivity) x shifts x scales x normalise ranges through process.* and the Weaver; bit-equal to the independently "
-    "evaluated IEEE expression.",
+    "Every series on G(7,k) with offsets/scales (and descending abscissae at function level) x V+-^k x 6 trend callables x normalised "
+    "or not x trend pairs x shifts x scales x normalise ranges (also on levels 1e6 / 1.7e9 and at 1e-9); bit-equal to the "
+    "independently evaluated IEEE expression; the pointwise maps in every state of Weaver histories to depth 3.",
     "pure scalar trend callables; normalise to 1e-12")
 add("C15", "4/C15", E1,
-    "Every signal in V+-^k (k<=5/6, non-zero) x 12 snr forms (dB, linear, per-sample list/array, explicit std) x 2 entry "
-    "points with the generator owned by a seam that records loc/scale/size; plus the real generator under 3 seeds on "
-    "2*10^5 samples (reproducibility, empirical SNR within 3 %).",
+    "Every signal in V+-^k (k<=5/6, non-zero) x 12 snr forms (dB, linear, per-sample list/array, explicit std; uint8 / int32 / float32 "
+    "typed) x 2 entry points with the generator owned by a seam recording loc/scale/size; caller's signal and snr arrays untouched, "
+    "second call identical; real generator under 3 seeds on 2*10^5 samples.",
     "the statistical sentence is a finite 3-seed confirmation, not a proof")
 add("C16", "4/C16", E1,
-    "Series of 5..6/7 points on 3 grids x 2 scales x {0,1,3}^k + ramps/affine x 8 smoothing values x 3 entry points: "
-    "smoothing condition within 0.1 %, identity for s=0 and affine data, default s = len*var, interpolating to_function.",
+    "Series of 5..6/7 points on 3 grids x 2 scales x {0,1,3}^k + ramps/affine (float, int16, int32 of large magnitude) x 8 smoothing "
+    "values x 3 entry points; to_function consistent with get() in every state of domain-operation histories to depth 2/3.",
     "FITPACK trusted; executions with FITPACK warnings discarded (counted)")
-
-add("C08", "4/C08 + 6", E2,
-    "All sequences of the 19 concrete domain operations (10 kinds) to depth 3/4 from 5 initial series on the live Weaver; "
-    "in every state working == reference (bytes) == exact rational model of the transformed original; every reshaping "
-    "operation leaves the reference bytes-unchanged; recreate+match tail against the transformed averages; shift/scale "
-    "commute with the pipeline.",
-    "truncation bounds strictly between samples; quick rotates the 24 tail combinations over the states, thorough runs all; "
-    "histories longer than the depth bound are not covered")
-add("C09", "4/C09 + 6", E2,
-    "All programs over the whole public API (59 concrete operations, 19 kinds, 7 constructors) respecting documented "
-    "preconditions: full alphabet to depth 2/3, core alphabet to depth 3/4, README pipeline with <=1/2 deviations "
-    "(programs of <=9 operations); well-formedness, caller data, original in every state; after restore_original "
-    "observational equality with a fresh object plus 1-step bisimulation over the alphabet.",
-    "deterministic noise seam; equal observable state implies equal futures is argued (operations read only the three series) "
-    "and re-checked one step deep")
-add("C20", "4/C20", E2,
-    "Every invalid-argument class of the statement (2-6 variants each) at function level over a lattice of surrounding valid "
-    "arguments, and 38 invalid Weaver requests fired in every state reached by all programs over the core alphabet to depth "
-    "2/3 from 7 constructors: exactly ValueError, and working/reference/original bytes-, dtype- and type-identical afterwards.",
-    "only the listed classes are demanded; object identity after rejection is not")
-
+add("C17", "4/C17", E1,
+    "Literal list-code contracts of the oversample/extend/append helpers (incl. end values equal to 0), the interval view (every [i,j] "
+    "read and write for every length 1..24 x size 1..8, layouts, closed intervals, oversampling; all operation sequences of length 3 "
+    "incl. negative indices and extensions), integrals on 5 abscissa images and block averaging incl. 1e12 dynamic range.",
+    "np.linspace/np.pad trusted; extend_linspace defaults only defined for len(a) > n")
 add("C18", "4/C18", E3,
-    "The finite configuration space is enumerated completely: all 95 documented names x every '-'/'_' spelling x unpack flag "
-    "through load_dataset against a scripted network and scratch HOME / TRAFFIC_WEAVER_DATA; ~200 unknown names; pairwise "
-    "distinctness of URL, checksum, remote file name and cache slot over all 76 remote datasets.",
-    "pinned checksums are only checked for shape and distinctness (real files unavailable offline); loader body runs with the fake payload's checksum")
+    "The finite configuration space is enumerated completely: all 95 documented names x every '-'/'_' spelling x unpack flag through "
+    "load_dataset against a scripted network and scratch HOME / TRAFFIC_WEAVER_DATA; ~340 unknown names incl. every attribute of "
+    "the lookup namespaces with loader prefixes stripped; pairwise distinctness of URL, checksum, remote file name and cache slot.",
+    "pinned checksums only checked for shape and distinctness (real files unavailable offline)")
 add("C19", "4/C19 + 5", E3,
-    "The real loader in a closed environment (scripted network, virtual sleep, every audited OS event / stat / network call / "
-    "half-write a step boundary): all lazily chosen network-answer sequences x n_retries x flags x gzip x initial cache state; "
-    "a kill at every step boundary under two crash models that must agree, followed by offline and online recovery; "
-    "explicit-state BFS over ALL interleavings of 2 and 3 loaders (4 in thorough) with <=1 crash and <=1 fault; 4 loaders "
-    "preemption-bounded; all 5700 ordered dataset pairs.",
-    "crash = process kill, not power loss; 5..16 loaders are not explored directly (see DESIGN.md 5.6); CPython refcounting closes files")
+    "The real loader in a closed environment (scripted network, virtual sleep, every audited OS event / stat / network call / file "
+    "open / buffered write a step boundary, two buffer regimes): all network-answer sequences x n_retries x flags x gzip x initial "
+    "cache state; a kill at every step boundary under two crash models that must agree, then offline and online recovery; "
+    "explicit-state BFS over ALL interleavings of 2 and 3 loaders of one dataset (4 in thorough) and of two datasets sharing a folder, "
+    "with <=1 crash and <=1 fault; 4 loaders preemption-bounded; all 5700 ordered dataset pairs; a TLA+ model checked by TLC up "
+    "to 16 loaders whose every N=2 (thorough: N=3) edge is replayed against the code.",
+    "crash = process kill, not power loss; interleavings finer than the model's actions only for 2-4 loaders; CPython refcounting closes files")
+add("C20", "4/C20", E2,
+    "Every invalid-argument class of the statement (2-6 variants each, incl. combinations such as unknown rule + single fixed point, a "
+    "fixed point one ulp off a sample, a range invalid for the reference only) at function level over a lattice of valid arguments, "
+    "and ~45 invalid Weaver requests fired in every state of all programs over the core alphabet to depth 2/3 from 7 constructors: "
+    "exactly ValueError, and working/reference/original bytes-, dtype- and type-identical afterwards.",
+    "only the listed classes are demanded; requests that the operation may legitimately honour are judged only by what a refusal leaves behind")
 
 ALL = ["C%02d" % i for i in range(1, 21)]
 NOT_BUILT = "check not built yet in this session (design in DESIGN.md section 4); will be claimed once its harness exists"
